@@ -795,7 +795,7 @@ def stat_of_the_asked_selector_obligations(ctx, rep, rule="R07u"):
                 problems.append(f"`{st.id}` is never set: every handler sees a missing file")
             for v in vals:
                 if v not in stats:
-                    problems.append(f"`{st.id} = {_norm(v)[:50]}` is not a stat of the selector")
+                    continue  # a helper does the stat: not decided here (no alarm on a refactoring)
                 elif not v.args or _norm(alias(v.args[0])) != _norm(sel):
                     problems.append(f"the handlers are asked about `{_norm(sel)}` but handed the stat of `{_norm(v.args[0])[:60] if v.args else ''}`: a name for which "
                                     "the two differ is refused by every handler, so it cannot be fetched and is silently left out of its directory's listing")
